@@ -16,7 +16,9 @@ func frameHistory(c *vc.Case, h *History, o OptSet, prop string) (*FrameMon, *St
 	s := NewStream(o)
 	fm := NewFrameMon(o.LimitValue())
 	refused := 0
-	for k, b := range h.Batches {
+	for k := 0; k < h.Len(); k++ {
+		b := h.At(k)
+		h.Forget(k - 1)
 		bar, err, pi := s.Encode(b)
 		c.Count("batches", 1)
 		if pi != nil {
@@ -84,7 +86,7 @@ func TestC12(t *testing.T) {
 		c.FP(h.Script, fmt.Sprint(sigs), o.String(), fmt.Sprintf("ret=%d rep=%d", fm.RetiredIDs, fm.DictReplacements))
 		c.Nontrivial(fm.RetiredIDs > 0 || fm.DictReplacements > 0)
 		if c.Idx < 48 {
-			c.Sample(map[string]any{"script": h.Script, "signals": fmt.Sprint(sigs), "options": o.String(), "batches": len(h.Batches),
+			c.Sample(map[string]any{"script": h.Script, "signals": fmt.Sprint(sigs), "options": o.String(), "batches": h.Len(),
 				"retired_schema_ids": fm.RetiredIDs, "dictionary_replacements": fm.DictReplacements, "payloads": fm.Payloads})
 		}
 	})
@@ -125,7 +127,7 @@ func TestC12(t *testing.T) {
 		fm, _ := frameHistory(c, h, o, "C12")
 		c.FP(h.Script, o.String())
 		c.Nontrivial(true)
-		c.Sample(map[string]any{"script": h.Script, "options": o.String(), "batches": len(h.Batches), "emitted": fm.Batches})
+		c.Sample(map[string]any{"script": h.Script, "options": o.String(), "batches": h.Len(), "emitted": fm.Batches})
 	})
 	// cardinality ramps under small limits: schema changes by overflow, resets under an unchanged schema
 	r.Layer("ramp", e.Pick(24, 240), func(c *vc.Case) {
